@@ -1,6 +1,8 @@
 import OrsoVerif.Lemmas.DictRow
 import OrsoVerif.Lemmas.DictSession
 import OrsoVerif.Lemmas.DictViews
+import OrsoVerif.Lemmas.DictSchema
+import OrsoVerif.Lemmas.DictJson
 /-!
 # C02 — Dictionary records map onto rows by field name
 
@@ -9,6 +11,7 @@ Property theorems (and the small lemmas they need, all about the model in
 -/
 namespace C02
 open DictRow DictSession DictViews Gen.DictCode
+open DictSchema (proj specStep specRun Safe RouteFresh sameOut sameOuts codeCfg readVia Cfg St SpecSt specViews validates applyMut Mut Schema)
 
 variable {α : Type}
 
@@ -657,6 +660,229 @@ example : runActs aliasedCfg ⟨["a"], [1], []⟩
       [.read .asDict, .change .asDict (fun _ => .pairs []), .read .asDict, .read .asJson, .read .asMap]
     = [(.asDict, some (.pairs [("a", 1)])), (.asDict, some (.pairs [])), (.asJson, some (.pairs [])),
        (.asMap, some (.pairs [("a", 1)]))] := by decide
+
+/-! ## The text of `as_json` (Model/DictJson.lean on C07's JSON model) -/
+
+open Cast.Json in
+/-- Clause "the JSON view reproduces exactly that field-to-value association", for the TEXT: what `as_json` returns —
+`orjson.dumps` of the object the source hands it (`asJsonViewExpr`), members in the dictionary view's order, every
+member name escaped like a string value — read back as JSON is the dictionary view: exactly the field names,
+whatever characters they contain (quotes, backslashes, control characters, non-ASCII), each with its cell.  Cells:
+`null`, booleans, integers in orjson's range, strings, nested arrays, floats under the rendering parameter's
+assumption (`Cast.Json.Wf`); the writer and the reader are those of C07's JSON model, extended to objects. -/
+theorem asJson_text_roundtrip (fot : List Char → Option UInt64) (rep : UInt64 → List Char)
+    (fields : List String) (row : List J) (hw : ∀ v ∈ row, Wf fot rep v) :
+    DictJson.readObj fot (DictJson.jsonText rep (asJsonViewExpr fields row))
+      = .ok (DictJson.members (asDict fields row)) := by
+  have hv : asJsonViewExpr fields row = asDict fields row := (views_code_eq fields row).2.2.2.2
+  rw [hv]
+  apply DictJson.readObj_renderObj
+  intro p hp
+  simp only [DictJson.members, List.mem_map] at hp
+  obtain ⟨q, hq, rfl⟩ := hp
+  exact hw _ (asDict_values_mem fields row q hq)
+
+open Cast.Json in
+/-- non-vacuity: a name with a quote, one with a line feed, a repeated name (its last cell), in the view's order -/
+example : String.ofList (DictJson.jsonText (fun _ => []) (asJsonViewExpr ["a\"b", "n\nl", "a\"b"] [.int 1, .str "x\\y".toList, .arr [.null, .bool true]]))
+    = "{\"a\\\"b\":[null,true],\"n\\nl\":\"x\\\\y\"}" := by decide
+
+/-! ## Frames bound to a schema object that is edited between uses (Model/DictSchema.lean) -/
+
+/-- As the source has them (orso/schema.py `column_names`, `__iter__`, `validate`; orso/row.py `create_class`;
+orso/dataframe.py `append`), the routes the dictionary path takes to a schema's names are harmless: each reads the
+column objects as they are now — directly, or by iterating a schema whose `__iter__` does, or through a
+`column_names` that keeps nothing on the instance — and `append` re-makes the row factory when its fields are no
+longer the schema's names. -/
+theorem code_schema_safe : Safe codeCfg where
+  classFresh := by
+    first
+      | exact Or.inl (by decide)
+      | exact Or.inr (Or.inl ⟨by decide, by decide⟩)
+      | exact Or.inr (Or.inr fun h => absurd h (by decide))
+  validateFresh := by
+    first
+      | exact Or.inl (by decide)
+      | exact Or.inr (Or.inl ⟨by decide, by decide⟩)
+      | exact Or.inr (Or.inr fun h => absurd h (by decide))
+  refreshFresh := by
+    first
+      | exact Or.inl (by decide)
+      | exact Or.inr (Or.inl ⟨by decide, by decide⟩)
+      | exact Or.inr (Or.inr fun h => absurd h (by decide))
+  refreshes := by decide
+
+/-- The views the code reports for an extracted row are the specification views of the record. -/
+theorem viewsOf_extract (null : α) (names : List String) (d : List (String × α)) (probes : List String) (dflt : α) :
+    viewsOf names (extract null names d) probes dflt = specViews null names d probes dflt := by
+  have hl : (extract null names d).length = names.length := by simp [extract]
+  have h4 : (probes.map fun p => getCode names (extract null names d) p dflt)
+      = probes.map fun p => some (get names (extract null names d) p dflt) :=
+    List.map_congr_left fun p _ => getCode_eq names _ hl p dflt
+  obtain ⟨h1, h2, -⟩ := views_code_eq names (extract null names d)
+  simp only [viewsOf, specViews, h1, h2, h4]
+
+/-- One operation of a session over schema objects and frames bound to them, for ANY harmless way of getting at
+the names: the code does what the specification machine does — every operation sees the schema's columns as they
+are at that moment, whatever was read, kept or built before. -/
+theorem bound_step_refines (cfg : Cfg) (h : Safe cfg) (null : α) (ofKey : String → α)
+    (st : St α) (op : DictSchema.Op α) :
+    proj (DictSchema.step cfg null ofKey st op).1 = (specStep null (proj st) op).1
+    ∧ sameOut (DictSchema.step cfg null ofKey st op).2 (specStep null (proj st) op).2 := by
+  cases op with
+  | ctx => exact ⟨rfl, rfl⟩
+  | schema cols => simp [DictSchema.step, specStep, proj, sameOut]
+  | bound k rows =>
+    cases hs : st.schemas[k % st.schemas.length]? with
+    | none => simp [DictSchema.step, specStep, proj, hs, sameOut]
+    | some s =>
+      have r2 := readVia_cols cfg cfg.classVia s
+      simp [DictSchema.step, specStep, proj, hs, map_cols_set _ _ _ _ hs r2, sameOut]
+  | read k v =>
+    cases hs : st.schemas[k % st.schemas.length]? with
+    | none => simp [DictSchema.step, specStep, proj, hs, sameOut]
+    | some s =>
+      have r2 := readVia_cols cfg v s
+      simp [DictSchema.step, specStep, proj, hs, map_cols_set _ _ _ _ hs r2, sameOut]
+  | fread i v =>
+    cases hf : st.frames[i % st.frames.length]? with
+    | none => simp [DictSchema.step, specStep, proj, hf, sameOut]
+    | some f =>
+      cases hs : st.schemas[f.schema]? with
+      | none => simp [DictSchema.step, specStep, proj, hf, hs, sameOut]
+      | some s =>
+        have r2 := readVia_cols cfg v s
+        simp [DictSchema.step, specStep, proj, hf, hs, map_cols_set _ _ _ _ hs r2, sameOut]
+  | mutate k m =>
+    cases hs : st.schemas[k % st.schemas.length]? with
+    | none => simp [DictSchema.step, specStep, proj, hs, sameOut]
+    | some s => simp [DictSchema.step, specStep, proj, hs, List.map_set, sameOut]
+  | append i d probes dflt =>
+    cases hf : st.frames[i % st.frames.length]? with
+    | none => simp [DictSchema.step, specStep, proj, hf, sameOut]
+    | some f =>
+      cases hs : st.schemas[f.schema]? with
+      | none => simp [DictSchema.step, specStep, proj, hf, hs, sameOut]
+      | some s =>
+        have v1 := readVia_fresh cfg cfg.validateVia h.validateFresh s
+        have v2 := readVia_cols cfg cfg.validateVia s
+        by_cases hv : validates s.cols d = true
+        · -- accepted: whatever the factory held, the row is laid out by the columns as they are now
+          obtain ⟨c1, c2⟩ := refreshed_safe cfg h f.factory (readVia cfg cfg.validateVia s).2
+          have ha : appendCode null ofKey (createClass s.cols frameRowsTuplesOnly) f.rows d
+              = some (f.rows ++ [extract null s.cols d]) := by
+            rw [show frameRowsTuplesOnly = false from rfl]; exact appendCode_false null ofKey s.cols f.rows d
+          have hcc : (DictSchema.refreshed cfg f.factory (readVia cfg cfg.validateVia s).2).2.cols = s.cols := by rw [c2, v2]
+          simp [DictSchema.step, specStep, proj, hf, hs, v1, hv, c1, v2, ha, map_cols_set _ _ _ _ hs hcc, List.map_set,
+            viewsOf_extract, sameOut]
+        · simp [DictSchema.step, specStep, proj, hf, hs, v1, hv, map_cols_set _ _ _ _ hs v2, sameOut]
+  | rowclass k d probes dflt =>
+    cases hs : st.schemas[k % st.schemas.length]? with
+    | none => simp [DictSchema.step, specStep, proj, hs, sameOut]
+    | some s =>
+      have r1 := readVia_fresh cfg cfg.classVia h.classFresh s
+      have r2 := readVia_cols cfg cfg.classVia s
+      simp [DictSchema.step, specStep, proj, hs, map_cols_set _ _ _ _ hs r2, r1, rowNew_dict, viewsOf_extract, sameOut]
+  | reread i =>
+    cases hf : st.frames[i % st.frames.length]? with
+    | none => simp [DictSchema.step, specStep, proj, hf, sameOut]
+    | some f => simp [DictSchema.step, specStep, proj, hf, sameOut]
+  | derive i how =>
+    cases hf : st.frames[i % st.frames.length]? with
+    | none => simp [DictSchema.step, specStep, proj, hf, sameOut]
+    | some f =>
+      cases hs : st.schemas[f.schema]? with
+      | none => simp [DictSchema.step, specStep, proj, hf, hs, sameOut]
+      | some s =>
+        have r2 := readVia_cols cfg cfg.classVia s
+        simp [DictSchema.step, specStep, proj, hf, hs, map_cols_set _ _ _ _ hs r2, sameOut]
+
+/-- Whole sessions (any order of: make a schema, make a frame on it, read its names any way, rename / replace /
+reorder / add / remove columns, append a dictionary, build a free-standing row, re-read, derive): outputs and
+visible state are those of the specification machine (what a read of the names returns is not compared: it is not the
+property's business). -/
+theorem bound_run_refines (cfg : Cfg) (h : Safe cfg) (null : α) (ofKey : String → α) (ops : List (DictSchema.Op α)) :
+    ∀ st : St α,
+      proj (DictSchema.run cfg null ofKey st ops).1 = (specRun null (proj st) ops).1
+      ∧ sameOuts (DictSchema.run cfg null ofKey st ops).2 (specRun null (proj st) ops).2 := by
+  induction ops with
+  | nil => intro st; exact ⟨rfl, trivial⟩
+  | cons op ops ih =>
+    intro st
+    obtain ⟨h1, h2⟩ := bound_step_refines cfg h null ofKey st op
+    obtain ⟨i1, i2⟩ := ih (DictSchema.step cfg null ofKey st op).1
+    simp only [DictSchema.run, specRun]
+    rw [← h1]
+    exact ⟨i1, h2, i2⟩
+
+/-- … and the routes of the working tree are harmless, so this holds of the code as it is. -/
+theorem bound_sessions_spec (null : α) (ofKey : String → α) (ops : List (DictSchema.Op α)) (st : St α) :
+    proj (DictSchema.run codeCfg null ofKey st ops).1 = (specRun null (proj st) ops).1
+    ∧ sameOuts (DictSchema.run codeCfg null ofKey st ops).2 (specRun null (proj st) ops).2 :=
+  bound_run_refines codeCfg code_schema_safe null ofKey ops st
+
+/-- non-vacuity of `bound_sessions_spec`, on the routes of the working tree: a frame made before the rename, one made
+after it, a record with the old names refused -/
+example : (DictSchema.run codeCfg 0 (fun _ => 7) ⟨[], []⟩
+      [.schema ["a", "b"], .bound 0 [], .append 0 [("b", 1), ("a", 2)] [] 0, .mutate 0 (.rename 0 "id"), .bound 0 [],
+       .append 1 [("b", 3), ("id", 4)] ["id", "a"] 9, .append 0 [("id", 5), ("b", 6)] [] 0, .append 0 [("a", 5), ("b", 6)] [] 0,
+       .reread 0]).2.drop 5
+    = [.appended [[4, 3]] ⟨[4, 3], [("id", 4), ("b", 3)], [("id", 4), ("b", 3)], [some 4, some 9]⟩,
+       .appended [[2, 1], [5, 6]] ⟨[5, 6], [("id", 5), ("b", 6)], [("id", 5), ("b", 6)], []⟩, .refused,
+       .frame [[2, 1], [5, 6]]] := by decide
+
+/-- Clause "by appending a dictionary … puts each field's value at that field's position" for a frame bound to a
+schema object, after ANY history: a record the schema accepts is stored as the row extracted by the schema's
+columns as they are when it is appended, and its views are those of that row under those names. -/
+theorem bound_append_now (null : α) (ofKey : String → α) (st0 : St α) (ops : List (DictSchema.Op α))
+    (i : Nat) (d : List (String × α)) (probes : List String) (dflt : α) (f : DictSchema.Frame α) (s : Schema)
+    (hf : (DictSchema.run codeCfg null ofKey st0 ops).1.frames[i % (DictSchema.run codeCfg null ofKey st0 ops).1.frames.length]? = some f)
+    (hs : (DictSchema.run codeCfg null ofKey st0 ops).1.schemas[f.schema]? = some s)
+    (hv : validates s.cols d = true) :
+    (DictSchema.step codeCfg null ofKey (DictSchema.run codeCfg null ofKey st0 ops).1 (.append i d probes dflt)).2
+      = .appended (f.rows ++ [extract null s.cols d]) (specViews null s.cols d probes dflt)
+    ∧ ∀ g, (DictSchema.step codeCfg null ofKey (DictSchema.run codeCfg null ofKey st0 ops).1 (.append i d probes dflt)).1.frames[
+          i % (DictSchema.run codeCfg null ofKey st0 ops).1.frames.length]? = some g → g.rows = f.rows ++ [extract null s.cols d] := by
+  obtain ⟨h1, h2⟩ := bound_step_refines codeCfg code_schema_safe null ofKey (DictSchema.run codeCfg null ofKey st0 ops).1 (.append i d probes dflt)
+  generalize (DictSchema.run codeCfg null ofKey st0 ops).1 = st at *
+  constructor
+  · have hspec2 : (specStep null (proj st) (.append i d probes dflt)).2
+        = .appended (f.rows ++ [extract null s.cols d]) (specViews null s.cols d probes dflt) := by
+      simp [specStep, proj, hf, hs, hv]
+    rw [hspec2] at h2
+    cases hstep : (DictSchema.step codeCfg null ofKey st (.append i d probes dflt)).2 <;> rw [hstep] at h2 <;>
+      first | exact h2 | cases h2
+  · intro g hg
+    have hlt : i % st.frames.length < st.frames.length := (List.getElem?_eq_some_iff.mp hf).1
+    have hspec : (specStep null (proj st) (.append i d probes dflt)).1
+        = ⟨(proj st).schemas, (proj st).frames.set (i % st.frames.length) (f.schema, f.rows ++ [extract null s.cols d])⟩ := by
+      simp [specStep, proj, hf, hs, hv]
+    rw [hspec] at h1
+    have := congrArg (fun p => p.frames[i % st.frames.length]?) h1
+    simp [proj, hg, hlt] at this
+    exact this.2
+
+/-- Why the first condition matters (the failure mode of a names list kept on the schema instance): under ANY
+definition in which `column_names` keeps its list, `__iter__` goes through it, the row class takes its fields by
+iterating the schema, and the kept list survives the edit `m` — the row made after the edit is laid out by the
+names from BEFORE it. -/
+theorem kept_names_stale (cfg : Cfg) (null : α) (ofKey : String → α) (c0 : List String) (m : Mut)
+    (d : List (String × α)) (probes : List String) (dflt : α)
+    (hk : cfg.namesKept = true) (hi : cfg.iterVia = .columnNames) (hc : cfg.classVia = .iter)
+    (hv : cfg.keptValid c0 (applyMut m c0) = true) :
+    (DictSchema.run cfg null ofKey ⟨[⟨c0, none⟩], []⟩ [.read 0 .columnNames, .mutate 0 m, .rowclass 0 d probes dflt]).2
+      = [.names c0, .names (applyMut m c0), .row (specViews null c0 d probes dflt)] := by
+  simp [DictSchema.run, DictSchema.step, readVia, DictSchema.columnNames, DictSchema.iterNames, hk, hi, hc, hv, rowNew_dict,
+    viewsOf_extract]
+
+/-- a way of keeping the names like the one the theorem speaks of: kept on the instance, handed out again while
+the NUMBER of columns is the same (written out: does not depend on the generated definitions) -/
+def lengthCfg : Cfg := ⟨true, fun k c => k.length == c.length, .columnNames, .iter, .columns, .columns, true, .columns⟩
+
+example : (DictSchema.run lengthCfg 0 (fun _ => 7) ⟨[], []⟩
+      [.schema ["a", "b"], .bound 0 [], .append 0 [("b", 1), ("a", 2)] [] 0, .mutate 0 (.rename 0 "id"), .bound 0 [],
+       .append 1 [("b", 3), ("id", 4)] ["id", "a"] 9]).2.getLast?
+    = some (.appended [[0, 3]] ⟨[0, 3], [("a", 0), ("b", 3)], [("a", 0), ("b", 3)], [some 9, some 0]⟩) := by decide
 
 /-- Non-vacuity. -/
 example : extract 0 ["b", "a", "z"] [("a", 1), ("b", 2), ("x", 9)] = [2, 1, 0] := by decide
